@@ -48,9 +48,13 @@ func gen(t *rapid.T) Case {
 		return c
 	}
 	c.Kind = "geom"
-	g := vkit.GenGJ(t, vkit.GeomOpts{Types: append([]string{"Bounds"}, vkit.AllSeven...), MaxDepth: rapid.IntRange(0, 3).Draw(t, "depth"),
+	o := vkit.GeomOpts{Types: append([]string{"Bounds"}, vkit.AllSeven...), MaxDepth: rapid.IntRange(0, 3).Draw(t, "depth"),
 		MinMembers: 0, MaxMembers: rapid.SampledFrom([]int{2, 4, 6}).Draw(t, "maxmem"), MaxPts: rapid.SampledFrom([]int{0, 1, 2, 3}).Draw(t, "maxpts"),
-		Coord: coord()})
+		Coord: coord()}
+	if rapid.IntRange(0, 49).Draw(t, "longmembers") == 31 {
+		o.MaxPts, o.MaxMembers, o.MaxDepth = rapid.IntRange(300, 1200).Draw(t, "maxptslong"), 3, 1 // members of hundreds of vertices
+	}
+	g := vkit.GenGJ(t, o)
 	c.G = &g
 	return c
 }
@@ -290,7 +294,7 @@ func enumerate(ev *vkit.Ev[Case], tier string) {
 func TestProp(t *testing.T) {
 	vkit.Main(t, vkit.Spec[Case]{
 		ID: "C04",
-		Rule: "rapid: geometries of all eight types (collections nested to depth<=3, 0-6 members, 0-3 vertices per member so that empty rings/" +
+		Rule: "rapid: geometries of all eight types (collections nested to depth<=3, 0-6 members, 0-3 vertices per member (a few per cent: up to 300-1200) so that empty rings/" +
 			"lines/polygons/collections and runs of them are frequent; coordinates from {+-0,+-1,+-Inf,+-MaxFloat,small ints,random}; *Bounds members are proper boxes) " +
 			"checked against a reference flattening (Len, Points order bit-for-bit, no panic, tight Bounds / empty box; Bounds() leaves the geometry and its members unchanged and is repeatable); triples of boxes (proper boxes incl. " +
 			"degenerate and infinite ones, and the canonical empty box) for Extend=lattice join (commutative, associative, idempotent, identity on empty), Overlaps=" +
